@@ -536,8 +536,10 @@ impl<'a> Tr<'a> {
             };
             if hit {
                 let saved = std::mem::replace(&mut self.generics, st.generics.type_params().map(|p| p.ident.to_string()).collect());
+                let saved_p = std::mem::replace(&mut self.pattern_generics, pattern_generics(&st.generics));
                 let t = self.conv_ty(&f.ty);
                 self.generics = saved;
+                self.pattern_generics = saved_p;
                 let name = match &f.ident {
                     Some(fi) => lean_ident(&fi.to_string()),
                     None => format!("_{}", i),
@@ -548,8 +550,41 @@ impl<'a> Tr<'a> {
         self.err(sp, &format!("no such field on `{}`", adt))
     }
 
+    fn variant_field_names(&self, en: &str, variant: &str) -> Vec<Option<String>> {
+        match self.idx.find_enum(en, &self.cur.module) {
+            Some(e) => e.variants.iter().find(|v| v.ident == variant).map(|v| v.fields.iter().map(|f| f.ident.as_ref().map(|i| i.to_string())).collect()).unwrap_or_default(),
+            None => vec![],
+        }
+    }
+
     fn struct_lit(&mut self, s: &syn::ExprStruct) -> R<Out> {
         let segs = path_segs(&s.path);
+        if segs.len() >= 2 {
+            let en = &segs[segs.len() - 2];
+            let en = if en == "Self" { self.cur.self_ty.clone().unwrap_or_default() } else { en.clone() };
+            if let Some(lean_en) = self.reg.enums.get(&en).cloned() {
+                let variant = segs.last().cloned().unwrap_or_default();
+                let names = self.variant_field_names(&en, &variant);
+                let tys = self.variant_field_tys(&en, &variant, s.span())?;
+                let mut pre = Vec::new();
+                let mut terms = Vec::new();
+                for (n, t) in names.iter().zip(tys.iter()) {
+                    let fv = s.fields.iter().find(|f| match (&f.member, n) {
+                        (syn::Member::Named(id), Some(n)) => id == n,
+                        _ => false,
+                    });
+                    match fv {
+                        Some(fv) => {
+                            let o = self.expr(&fv.expr, Some(t))?;
+                            pre.extend(o.pre);
+                            terms.push(o.term);
+                        }
+                        None => return self.err(s.span(), "missing field in enum struct-variant literal"),
+                    }
+                }
+                return Ok(Out { pre, term: format!("({}.{} {})", lean_en, lean_ident(&variant), terms.join(" ")), ty: Ty::Adt(en), diverges: false });
+            }
+        }
         let name = segs.last().cloned().unwrap_or_default();
         let name = if name == "Self" { self.cur.self_ty.clone().unwrap_or_default() } else { name };
         let lean = match self.reg.structs.get(&name) {
@@ -780,8 +815,10 @@ impl<'a> Tr<'a> {
         for v in &e.variants {
             if v.ident == variant {
                 let saved = std::mem::replace(&mut self.generics, e.generics.type_params().map(|p| p.ident.to_string()).collect());
+                let saved_p = std::mem::replace(&mut self.pattern_generics, pattern_generics(&e.generics));
                 let tys = v.fields.iter().map(|f| self.conv_ty(&f.ty)).collect();
                 self.generics = saved;
+                self.pattern_generics = saved_p;
                 return Ok(tys);
             }
         }
